@@ -17,7 +17,14 @@ Model of `spawn_workspace_reload_task` / `apply_workspace_reload` / `sync_reload
   else `l2` (analysis.write): open files := their text in the new snapshot, files open in the applied
   snapshot but not any more := disk content / removed; applied := new; back to `l1`.
 
-All uris are workspace files. Import-free, executable.
+Workspace membership: `member u` = `is_workspace_file(u)` under the current matcher. Every reload request carries
+the matcher of its configuration; `r1` installs it (`update_match_state`) **before** taking the snapshot, and the
+snapshot only lists the open documents that are workspace files *under the new matcher*. The handlers record
+the editor text unconditionally (`sync_open_file`) and decide in the same critical section whether the document
+is analysed (`should_process` = known to the analysis ∨ workspace file): `syncCheck`. So a document opened while
+it was excluded is in `wm`, and a reload that brings it into the workspace finds it in its snapshot.
+`Cfg.syncBeforeCheck = false` is the variant that tests first and returns without recording.
+Import-free, executable.
 -/
 namespace SchedReload
 
@@ -35,12 +42,10 @@ def overlay (wm disk : TMap) : TMap := fun u => match wm u with
 inductive Notif | edit (u : Uri) (t : Text) | close (u : Uri) deriving DecidableEq, Repr
 
 inductive Step
+  | syncCheck (u : Uri) (t : Text)  -- workspace_manager.write: sync_open_file + membership test (+ file known to the analysis)
+  | check (u : Uri) (t : Text)      -- (variant) membership test first; nothing is recorded for a non-workspace file
   | syncWm (u : Uri) (t : Text) | updAn (u : Uri) (t : Text) | closeWm (u : Uri) | closeAn (u : Uri)
   deriving DecidableEq, Repr
-
-def steps : Notif → List Step
-  | .edit u t => [.syncWm u t, .updAn u t]
-  | .close u => [.closeWm u, .closeAn u]
 
 structure Snap where
   ver : Nat
@@ -48,7 +53,7 @@ structure Snap where
 
 inductive RPhase
   | idle
-  | r1
+  | r1 (m : Uri → Bool)   -- about to install the new matcher and snapshot
   | r2 (snap : Snap)
   | r3 (snap : Snap)
   | l1 (applied : Snap)
@@ -57,10 +62,12 @@ inductive RPhase
 structure St where
   pending : List Notif
   cur : List Step
+  ed : TMap          -- ghost: what the editor has open (text of the last didOpen/didChange taken so far, none after didClose)
   wm : TMap
   ver : Nat
   an : TMap
-  reloads : Nat      -- reload requests that have not started yet
+  member : Uri → Bool              -- current workspace matcher
+  reloads : List (Uri → Bool)      -- reload requests that have not started yet, each with its configuration's matcher
   rp : RPhase
 
 inductive Label | main | reload | rstep deriving DecidableEq, Repr
@@ -71,22 +78,44 @@ structure Cfg where
   bumpOnSync : Bool    -- `sync_open_file` bumps `open_file_state_version`
   bumpOnClose : Bool   -- `close_open_file` bumps it
   syncLoop : Bool      -- `sync_reloaded_open_files` runs after `init_analysis`
+  syncBeforeCheck : Bool  -- the handlers record the editor text before (and whatever) the membership test says
   deriving DecidableEq, Repr
 
-def realCfg : Cfg := { bumpOnSync := true, bumpOnClose := true, syncLoop := true }
+def realCfg : Cfg := { bumpOnSync := true, bumpOnClose := true, syncLoop := true, syncBeforeCheck := true }
+
+def steps (cfg : Cfg) : Notif → List Step
+  | .edit u t => if cfg.syncBeforeCheck then [.syncCheck u t] else [.check u t]
+  | .close u => [.closeWm u, .closeAn u]
+
+/-- the open documents that are workspace files under matcher `m` (`workspace_open_files`) -/
+def filt (m : Uri → Bool) (wm : TMap) : TMap := fun u => if m u then wm u else none
+
+/-- disk content of the workspace files (what a rebuild loads) -/
+def mdisk (m : Uri → Bool) (disk : TMap) : TMap := fun u => if m u then disk u else none
+
+/-- the editor's own view after notification `n` -/
+def edApply (ed : TMap) : Notif → TMap
+  | .edit u t => ed.set u (some t)
+  | .close u => ed.set u none
 
 def execStep (cfg : Cfg) (disk : TMap) (s : St) (rest : List Step) : Step → St
+  | .syncCheck u t =>
+    { s with cur := if (s.an u).isSome || s.member u then .updAn u t :: rest else rest,
+             wm := s.wm.set u (some t), ver := if cfg.bumpOnSync then s.ver + 1 else s.ver }
+  | .check u t =>
+    { s with cur := if (s.an u).isSome || s.member u then .syncWm u t :: .updAn u t :: rest else rest }
   | .syncWm u t => { s with cur := rest, wm := s.wm.set u (some t), ver := if cfg.bumpOnSync then s.ver + 1 else s.ver }
   | .updAn u t => { s with cur := rest, an := s.an.set u (some t) }
   | .closeWm u => { s with cur := rest, wm := s.wm.set u none, ver := if cfg.bumpOnClose then s.ver + 1 else s.ver }
-  | .closeAn u => { s with cur := rest, an := s.an.set u (disk u) }
+  | .closeAn u => { s with cur := rest, an := s.an.set u (mdisk s.member disk u) }
 
-/-- `apply_open_file_sync` -/
-def applySync (disk : TMap) (an : TMap) (applied next : Snap) : TMap := fun u =>
+/-- `apply_open_file_sync` (a document that left the snapshot is restored from disk when it is a workspace file
+on disk, else removed) -/
+def applySync (m : Uri → Bool) (disk : TMap) (an : TMap) (applied next : Snap) : TMap := fun u =>
   match next.files u with
   | some t => some t
   | none => match applied.files u with
-    | some _ => disk u
+    | some _ => mdisk m disk u
     | none => an u
 
 def exec (cfg : Cfg) (disk : TMap) (s : St) : Label → Option St
@@ -96,21 +125,21 @@ def exec (cfg : Cfg) (disk : TMap) (s : St) : Label → Option St
     | [] =>
       match s.pending with
       | [] => none
-      | n :: ms => some { s with pending := ms, cur := steps n }
+      | n :: ms => some { s with pending := ms, cur := steps cfg n, ed := edApply s.ed n }
   | .reload =>
     match s.rp, s.reloads with
-    | .idle, k + 1 => some { s with reloads := k, rp := .r1 }
+    | .idle, m :: k => some { s with reloads := k, rp := .r1 m }
     | _, _ => none
   | .rstep =>
     match s.rp with
     | .idle => none
-    | .r1 => some { s with rp := .r2 { ver := s.ver, files := s.wm } }
+    | .r1 m => some { s with member := m, rp := .r2 { ver := s.ver, files := filt m s.wm } }
     | .r2 snap => some { s with an := fun _ => none, rp := .r3 snap }
-    | .r3 snap => some { s with an := overlay snap.files disk, rp := if cfg.syncLoop then .l1 snap else .idle }
+    | .r3 snap => some { s with an := overlay snap.files (mdisk s.member disk), rp := if cfg.syncLoop then .l1 snap else .idle }
     | .l1 applied =>
       if s.ver = applied.ver then some { s with rp := .idle }
-      else some { s with rp := .l2 applied { ver := s.ver, files := s.wm } }
-    | .l2 applied next => some { s with an := applySync disk s.an applied next, rp := .l1 next }
+      else some { s with rp := .l2 applied { ver := s.ver, files := filt s.member s.wm } }
+    | .l2 applied next => some { s with an := applySync s.member disk s.an applied next, rp := .l1 next }
 
 def run (cfg : Cfg) (disk : TMap) (s : St) : List Label → Option St
   | [] => some s
@@ -118,34 +147,44 @@ def run (cfg : Cfg) (disk : TMap) (s : St) : List Label → Option St
     | some s' => run cfg disk s' rest
     | none => none
 
-def init (disk : TMap) (ms : List Notif) (reloads : Nat) : St :=
-  { pending := ms, cur := [], wm := fun _ => none, ver := 0, an := disk, reloads := reloads, rp := .idle }
+def init (disk : TMap) (m0 : Uri → Bool) (ms : List Notif) (reloads : List (Uri → Bool)) : St :=
+  { pending := ms, cur := [], ed := fun _ => none, wm := fun _ => none, ver := 0, an := mdisk m0 disk, member := m0, reloads := reloads,
+    rp := .idle }
 
 def RPhase.isIdle : RPhase → Bool
   | .idle => true
   | _ => false
 
-def quiescent (s : St) : Prop := s.pending = [] ∧ s.cur = [] ∧ s.reloads = 0 ∧ s.rp.isIdle = true
+def quiescent (s : St) : Prop := s.pending = [] ∧ s.cur = [] ∧ s.reloads = [] ∧ s.rp.isIdle = true
 
-def quiescentB (s : St) : Bool := s.pending.isEmpty && s.cur.isEmpty && s.reloads == 0 && s.rp.isIdle
+def quiescentB (s : St) : Bool := s.pending.isEmpty && s.cur.isEmpty && s.reloads.isEmpty && s.rp.isIdle
 
 /-- progress measure (every step decreases it, see `Lemmas/SchedReload`) -/
 def rMeasure (ver : Nat) : RPhase → Nat
   | .idle => 0
-  | .r1 => 7
+  | .r1 _ => 7
   | .r2 _ => 6
   | .r3 _ => 5
   | .l1 a => 1 + (if ver = a.ver then 0 else 3)
   | .l2 _ n => 2 + (if ver = n.ver then 0 else 3)
 
-def measure (s : St) : Nat := 4 * (3 * s.pending.length + s.cur.length) + 8 * s.reloads + rMeasure s.ver s.rp
+def stepW : Step → Nat
+  | .syncCheck _ _ => 2
+  | .check _ _ => 3
+  | _ => 1
+
+def curW (l : List Step) : Nat := (l.map stepW).sum
+
+def measure (s : St) : Nat := 4 * (4 * s.pending.length + curW s.cur) + 8 * s.reloads.length + rMeasure s.ver s.rp
 
 /-! ## Exhaustive exploration (search only) -/
 
 def showLabel : Label → String
   | .main => "main" | .reload => "reload" | .rstep => "rstep"
 
-def consistentAt (disk : TMap) (s : St) (us : List Uri) : Bool := us.all (fun u => s.an u == overlay s.wm disk u)
+/-- every uri of `us` that is a workspace file now is analysed with the text the EDITOR holds / the disk content -/
+def consistentAt (disk : TMap) (s : St) (us : List Uri) : Bool :=
+  us.all (fun u => !s.member u || s.an u == overlay s.ed disk u)
 
 def explore (cfg : Cfg) (disk : TMap) (us : List Uri) : Nat → List (St × List Label) → Nat → Except String (Option (List Label) × Nat)
   | 0, _, _ => .error "fuel"
